@@ -35,7 +35,7 @@ C1, C2, C3 = ts.tlv(8, b'a'), ts.tlv(8, b''), ts.tlv(32, b'k')
 CL = ts.tlv(8, b'L' * 253)          # one component whose value needs a 3-byte length
 
 KINDS = ['uint', 'uint1', 'uint2', 'uint4', 'uint8', 'bool', 'bytes', 'text', 'name', 'model',
-         'rep-uint', 'rep-bytes', 'rep-name', 'rep-model', 'map-uint-bytes', 'map-text-model', 'map-uint-uint', 'map-uint-model', 'map-bytes-uint']
+         'rep-uint', 'rep-bytes', 'rep-name', 'rep-model', 'map-uint-bytes', 'map-text-model', 'map-uint-uint', 'map-uint-model', 'map-bytes-uint', 'map-uint-nest']
 
 
 def field_of(kind, n, types):
@@ -72,6 +72,11 @@ def field_of(kind, n, types):
         return {'n': n, 'k': 'map', 't': t, 'key': {'n': None, 'k': 'uint', 't': t},
                 'val': {'n': None, 'k': 'model', 't': next(types), 'fields': [{'n': 'x', 'k': 'uint', 't': next(types)},
                                                                              {'n': 'y', 'k': 'bytes', 't': next(types)}]}}
+    if kind == 'map-uint-nest':
+        # a map of sub-models each of which holds a map of its own under the same attribute name
+        return {'n': n, 'k': 'map', 't': t, 'key': {'n': None, 'k': 'uint', 't': t},
+                'val': {'n': None, 'k': 'model', 't': next(types), 'fields': [{'n': n, 'k': 'map', 't': (t2 := next(types)), 'key': {'n': None, 'k': 'uint', 't': t2},
+                                                                              'val': {'n': None, 'k': 'uint', 't': next(types)}}]}}
     if kind == 'map-text-model':
         return {'n': n, 'k': 'map', 't': t, 'key': {'n': None, 'k': 'text', 't': t},
                 'val': {'n': None, 'k': 'model', 't': next(types), 'fields': [{'n': 'x', 'k': 'uint', 't': next(types)}]}}
